@@ -145,4 +145,21 @@ theorem stale_done_event_fires :
     runInvoke.st.cfg = [[], ["d"]] ∧ runInvoke.started = [(["s"], "i", 1)] ∧
     actOf runInvoke.acts ["s"] = 2 ∧ runInvoke.invs = [] := by decide
 
+set_option maxRecDepth 100000 in
+/-- **F74 / F74s (C14: F72) — a service started on a STOPPED interpreter.** `none_alive_after_exit_or_stop` is about `stopRT` itself.
+    When `stop()` arrives inside a macrostep (see `C08.stop_inside_macrostep_arms_tasks`) the rest of the macrostep runs on the
+    stopped interpreter and `scheduleRT` creates the service tasks of the states it enters.
+    async (`RTEx.mStopSvc`): `GO` and `stop` at t = 50; `s` owns a timer, so its exit suspends in `cancel_by_owner` and the stop lands
+    there; `b` is entered behind it, its service task is created, the service is CALLED at t = 50 (after the stop), runs its 100 ms
+    and its completion is refused by `send` (status `stopped`).
+    sync (`RTEx.mStopSync`): the service of `b` is called inside the entry at t = 150, 30 ms after `stop()` returned.
+    Reproduced on the real engines with identical record lists (`findings/F74_*.json`, `F74s_*.json`). -/
+theorem stop_inside_macrostep_starts_service :
+    ((runStopSvc.flush.log.reverse.filter (fun r => 50 ≤ r.1)).map (fun r => (r.1, r.2)) =
+      [(50, "send:GO:running"), (50, "#recv:GO"), (50, "stop"), (50, "ex:s@GO"), (50, "t:s:GO@GO"), (50, "en:b@GO"), (50, "#t:m,m.b"),
+       (50, "svc-start:i"), (150, "svc-end:i:ok"), (150, "send:done.invoke.i:stopped")] ∧
+     runStopSvc.st.status = "stopped" ∧ runStopSvc.started = [(["b"], "i", 1)] ∧ runStopSvc.st.cfg = [[], ["b"]]) ∧
+    (runStopSync.started = [(["b"], "ib0", 1)] ∧ runStopSync.st.status = "stopped" ∧
+     (runStopSync.flush.log.reverse.filter (fun r => r.2 = "stop" || r.2 = "svc-start:ib0")).map (·.1) = [120, 150]) := by decide
+
 end XSM.C09
